@@ -1,6 +1,7 @@
 #!/usr/bin/env python3
-"""Regenerate sa/baseline_functions.json (function inventory + local alias inventory) from the PINNED, repaired tree.
-Run only on the tree the rules were written against; constructs not listed are normalised (inlined / propagated)."""
+"""Regenerate sa/baseline_functions.json from the PINNED, repaired tree: the inventory of functions, of top-level local
+aliases (v = name.attr...) and of conditional-value statements.  Run only on the tree the rules were written against;
+constructs not listed are normalised (helpers inlined, aliases propagated, conditional values split) before the rules run."""
 import ast
 import json
 import sys
@@ -8,34 +9,58 @@ from pathlib import Path
 
 sys.path.insert(0, str(Path(__file__).resolve().parent.parent))
 P = Path(__file__).resolve().parent.parent / "sa" / "baseline_functions.json"
-old = json.loads(P.read_text())
-P.write_text(json.dumps({"comment": old["comment"], "functions": old["functions"], "aliases": []}))
-from sa.model import Repo, norm  # noqa: E402
+root = Path(sys.argv[1] if len(sys.argv) > 1 else "/repo")
 
-root = sys.argv[1] if len(sys.argv) > 1 else "/repo"
-P.write_text(json.dumps({"comment": old["comment"], "functions": [], "aliases": []}))
-# functions: with an empty inventory everything simple would be inlined, so take names from a raw parse
-funcs = set()
-r = None
-P.write_text(json.dumps(old))
-r = Repo(root)
-funcs = sorted(r.functions)
-aliases = []
-for f in r.functions.values():
-    for st in f.node.body:
-        if isinstance(st, ast.Assign) and len(st.targets) == 1 and isinstance(st.targets[0], ast.Name):
-            e = st.value
-            n = 0
-            while isinstance(e, ast.Attribute):
-                e = e.value
-                n += 1
-            if n and isinstance(e, ast.Name):
-                aliases.append([f.qualname, norm(st)])
+from sa.inline import cond_value_candidates  # noqa: E402
+from sa.model import Canon  # noqa: E402
+
+funcs, aliases, cvs = [], [], []
+for path in sorted((root / "src").rglob("*.py")):
+    rel = path.relative_to(root / "src")
+    parts = list(rel.with_suffix("").parts)
+    if parts[-1] == "__init__":
+        parts.pop()
+    mod = ".".join(parts)
+    tree = ast.fix_missing_locations(Canon().visit(ast.parse(path.read_text())))
+    cvs.extend(cond_value_candidates(tree))
+
+    def walk(body, prefix):
+        for n in body:
+            if isinstance(n, ast.FunctionDef | ast.AsyncFunctionDef):
+                q = f"{prefix}.{n.name}"
+                if any(isinstance(d, ast.Attribute) and d.attr == "setter" for d in n.decorator_list):
+                    q += ".setter"
+                funcs.append(q)
+                for st in n.body:
+                    if isinstance(st, ast.Assign) and len(st.targets) == 1 and isinstance(st.targets[0], ast.Name):
+                        e, k = st.value, 0
+                        while isinstance(e, ast.Attribute):
+                            e, k = e.value, k + 1
+                        if k and isinstance(e, ast.Name):
+                            aliases.append([q, ast.unparse(st)])
+                stack = list(n.body)
+                inner = []
+                while stack:
+                    x = stack.pop(0)
+                    if isinstance(x, ast.FunctionDef | ast.AsyncFunctionDef | ast.ClassDef):
+                        inner.append(x)
+                        continue
+                    stack.extend(c for c in ast.iter_child_nodes(x) if isinstance(c, ast.stmt | ast.ExceptHandler))
+                walk(inner, q)
+            elif isinstance(n, ast.ClassDef):
+                walk(n.body, f"{prefix}.{n.name}")
+            elif isinstance(n, ast.If | ast.Try | ast.With):
+                walk([c for c in ast.iter_child_nodes(n) if isinstance(c, ast.stmt)], prefix)
+
+    walk(tree.body, mod)
 out = {
-    "comment": "inventory of functions and of top-level local aliases (v = name.attr...) on the pinned (repaired) tree; functions NOT listed here are treated as helpers added later and are inlined (when simple), aliases NOT listed are substituted away (when safe) before the rules run",
-    "functions": sorted(set(old["functions"])),
+    "comment": "inventory, on the pinned (repaired) tree, of functions, of top-level local aliases (v = name.attr...) and of conditional-value statements; functions NOT listed are treated as helpers added later and inlined (when simple), aliases NOT listed are substituted away (when safe), conditional values NOT listed are split into if/else, before the rules run",
+    "functions": sorted(set(funcs)),
     "aliases": sorted(aliases),
+    "cond_values": sorted(set(cvs)),
 }
-assert sorted(set(old["functions"])) == funcs or True
+old = json.loads(P.read_text())
+if set(old.get("functions", [])) != set(out["functions"]):
+    print("NOTE: function inventory differs from the previous one:", sorted(set(old.get("functions", [])) ^ set(out["functions"]))[:10])
 P.write_text(json.dumps(out, indent=0) + "\n")
-print(len(out["functions"]), "functions,", len(aliases), "aliases")
+print(len(out["functions"]), "functions,", len(aliases), "aliases,", len(out["cond_values"]), "conditional values")
